@@ -236,7 +236,13 @@ def _post_avg(mon, call):
                 return
             mon.note("measured-task-without-exact-expectation")
             continue
-        if not _vec_close(vals, exp):
+        # a basis state: "exactly coefficient times eigenvalue regardless of shot count" - no tolerance at all
+        exact_required = v.kind == "measured" and v.bits is not None
+        # otherwise 1e-12 relative to the size of the coefficients involved (not to the expected value, which may be 0)
+        mags = [abs(c) for _o, c in v.terms]
+        scales = mags if v.kind == "measured" and len(mags) == len(exp) else [sum(mags)] * len(exp)
+        if not (_vec_close(vals, exp, 0.0) if exact_required else
+                (len(vals) == len(exp) and all(_close(x, y, 1e-12 * max(1.0, m)) for x, y, m in zip(vals, exp, scales)))):
             src = [j for j, e in enumerate(expected) if j != i and e is not None and _vec_close(vals, e)]
             where = f" - that is the result of task #{src[0]}" if src else ""
             kind = {"constant": "constant-value", "zeroshot": "zero-shot-value"}.get(
@@ -378,7 +384,7 @@ def _post_exact(mon, call):
         exps.append(G.ref_expectation(terms, psi, n).real)
     for i, (r, e) in enumerate(zip(res, exps)):
         vals = _vals(r)
-        scale = max(1.0, sum(abs(c) for _o, c in specs[i][2]))
+        scale = max(1e-300, sum(abs(c) for _o, c in specs[i][2]))  # relative to the coefficients: tiny ones count
         if len(vals) != 1 or not (abs(complex(vals[0]) - e) <= 1e-9 * scale):
             src = [j for j, x in enumerate(exps) if j != i and len(vals) == 1 and abs(complex(vals[0]) - x) <= 1e-9 * scale]
             mon.violation("result-at-wrong-index" if src else "exact-value",
@@ -536,7 +542,9 @@ def run_case(ctx):
 
     rng = ctx.rng
     cls = ctx.cls
-    scale = 2.0 ** rng.randint(-3, 3)
+    # dyadic scale (sums and products with +-1 stay exact); one case in six far below the 1e-8 below which the
+    # operator algebra drops coefficients when it simplifies, or far above 1
+    scale = 2.0 ** rng.randint(-3, 3) if rng.random() < 0.84 else 2.0 ** rng.choice([-40, -34, -30, -27, 20, 40])
 
     if cls in ("kinds_exh", "random_long", "superposition"):
         if cls == "kinds_exh":
@@ -662,7 +670,7 @@ def run_case(ctx):
             circ["ops"] = ops
             kind = rng.choice(G.KINDS)
             op = G.rand_constant_op(rng, i, scale, rng.choice(["term", "sum1", "unsimplified"])) if kind == "constant" else G.rand_ising_op(rng, width, i, scale)
-            specs.append({"kind": kind, "op": op, "circ": circ, "shots": 0 if kind == "zeroshot" else rng.randint(1, 50)})
+            specs.append({"kind": kind, "op": op, "circ": circ, "shots": 0 if kind == "zeroshot" else rng.choice([rng.randint(1, 50), rng.randint(1, 200)])})
             style = rng.choice(["full", "full", "partial", "extra", "empty"])
             use = list(names) if style in ("full", "extra") else (rng.sample(names, rng.randint(0, len(names))) if style == "partial" else [])
             m = {nm: rng.choice([round(rng.uniform(-3, 3), 3), rng.randint(-3, 3)]) for nm in use}
